@@ -266,19 +266,26 @@ def check_class(base, nprops, nenums, virt, tmpl, ops, nsdepth):
     if tmpl and ops == 2:
         optxt = "double operator[](size_t i) const; This operator==(const This& o) const;"
     members = "".join("%s %s; " % (t, n) for t, n, _c in props) + "".join("enum %s { %s }; " % (n, ", ".join(v)) for n, v in enums) + optxt
+    # tmpl: 0 plain, 1 enumerated instantiations, 2 typedef in the template's namespace, 3 typedef in a namespace nested below it
+    head = ["", "template<T = {ns::Other, double}> ", "template<T> ", "template<T> "][tmpl]
+    td = "typedef %sCls<ns::Other> ClsOther;" % "".join(x + "::" for x in nss)
+    after = ["", "", td + "\n", "namespace sub { %s }\n" % td][tmpl]
     text = (PRELUDE + "".join("namespace %s {\n" % x for x in nss) +
-            "%s%sclass Cls%s { Cls(); %s };\n" % ("template<T = {ns::Other, double}> " if tmpl else "", "virtual " if virt else "", btxt, members) +
+            "%s%sclass Cls%s { Cls(); %s };\n" % (head, "virtual " if virt else "", btxt, members) + after +
             "}\n" * len(nss))
     body = pipe.pybind_body(text)
     ents = readers.parse_pybind(body)
     problems = []
-    for inst in (["ns::Other", "double"] if tmpl else [None]):
+    for inst in ([None], ["ns::Other", "double"], ["ns::Other"], ["ns::Other"])[tmpl]:
         cname = "Cls" + ({"ns::Other": "Other", "double": "Double", None: ""}[inst])
         ccpp = "::".join(nss + ("Cls",)) + ("<%s>" % inst if tmpl else "")
         ce = [e for e in ents if e["ent"] == "class" and e["name"] == cname]
         if len(ce) != 1:
             problems.append("%d classes %s" % (len(ce), cname)); continue
         ce = ce[0]
+        want_mod = "m_" + "_".join(nss)            # (a typedef in a nested namespace registers in the template's module: not judged here)
+        if tmpl != 3 and ce["module"] != want_mod:
+            problems.append("%s registered in %s, expected %s" % (cname, ce["module"], want_mod))
         if b and len(b) == 3:
             bexp = "::".join(b[1] + (b[0],)) + "<%s>" % (inst if tmpl else b[2])
         else:
@@ -334,6 +341,22 @@ def c04_class(base: int, nprops: int, nenums: int, virt: int, tmpl: int, ops: in
     return ok
 
 
+def c04_class_typedef(base: int, nprops: int, nenums: int, place: int, ops: int, nsdepth: int) -> bool:
+    """
+    As c04_class for a class template instantiated by a typedef written in the template's namespace or in a namespace
+    nested below it (template at global scope included): the registration, `&Class::member` targets, enums and
+    enumerators name the TEMPLATE's namespace.
+    pre: 0 <= base < 4 and 0 <= nprops <= 3 and 0 <= nenums <= 2 and 0 <= place <= 1 and 0 <= ops <= 2 and 0 <= nsdepth <= 2
+    post: _
+    """
+    base, nenums, place, ops, nsdepth = pick(base, 0, 4), pick(nenums, 0, 3), pick(place, 0, 2), pick(ops, 0, 3), pick(nsdepth, 0, 3)
+    nprops = pick(nprops, 0, 4) if THOROUGH else (base + ops + nsdepth) % 4
+    with concrete():
+        ok = check_class(base, nprops, nenums, (base + nprops) % 2, 2 + place, ops, nsdepth)
+    reached({"base": base, "nenums": nenums, "place": place, "ops": ops, "nsdepth": nsdepth} if (not ok or (base == 3 and nenums == 1 and ops == 2)) else None)
+    return ok
+
+
 def c04_argname(name: str) -> bool:
     """
     Argument names are copied verbatim into the lambda parameter, the call and py::arg (one symbolic spelling).
@@ -375,6 +398,8 @@ def conds(tier):
         xh.Cond(M, "c04_function", t(300, 2400), path_timeout=60, kind=sb, examples=["n=2, k=1, t0=1, t1=0, r=2, flavour=0, nsdepth=0", "n=1, k=0, t0=3, t1=0, r=3, flavour=1, nsdepth=2"],
                 bounds="as c04_method for free functions (2 return-shape offsets in thorough), namespace depth 0-2 (global scope included%s)" % ("" if not q else "; derived")),
         xh.Cond(M, "c04_class", t(300, 1500), path_timeout=60, kind=sb, examples=["base=1, nprops=2, nenums=1, virt=0, tmpl=0, ops=1, nsdepth=1", "base=3, nprops=3, nenums=2, virt=1, tmpl=1, ops=2, nsdepth=2"],
-                bounds="4 base forms x 0-3 properties x 0-2 class enums x class template x 3 operator sets%s" % (" x virtual x namespace depth 0-2" if not q else "; virtual / namespace depth derived")),
+                bounds="4 base forms x 0-3 properties x 0-2 class enums x {plain, enumerated template} x 3 operator sets%s" % (" x virtual x namespace depth 0-2" if not q else "; virtual / namespace depth derived")),
+        xh.Cond(M, "c04_class_typedef", t(300, 1500), path_timeout=60, kind=sb, examples=["base=0, nprops=1, nenums=1, place=1, ops=0, nsdepth=0", "base=2, nprops=2, nenums=2, place=0, ops=1, nsdepth=2", "base=3, nprops=3, nenums=1, place=1, ops=2, nsdepth=2"],
+                bounds="typedef'd instantiation in the template's namespace / in a nested namespace x 4 base forms x 0-2 class enums x 3 operator sets x namespace depth 0-2%s" % (" x 0-3 properties" if not q else "; properties derived")),
         xh.Cond(M, "c04_argname", t(120, 600), examples=["name='pose'"], bounds="all argument names of length <= 6"),
     ]
